@@ -1045,6 +1045,9 @@ func compareWitness(r *PathResult, o *nativeOutcome) (bool, string) {
 			n = len(nat)
 		}
 		for i := 0; i < n; i++ {
+			if pred[i].Val == "<opaque-string>" && pred[i].Kind == nat[i].Kind && pred[i].ID == nat[i].ID && strings.HasPrefix(nat[i].Val, "s:") {
+				continue // content of formatted strings is not modelled
+			}
 			if pred[i] != nat[i] {
 				return false, fmt.Sprintf("event %d: engine predicts %v, native gives %v", i, pred[i], nat[i])
 			}
